@@ -67,7 +67,7 @@ func (w *world) step(a alpha, id string) string {
 	o := opts[nd.Choice("op", len(opts))]
 	switch o.kind {
 	case 0:
-		nd.Assert(w.doSet(o.t, o.key, w.freshVal(), 0) == nil, id+".set-ok")
+		nd.Assert(w.doSet(o.t, o.key, w.freshVal(), w.howFor(o.t, o.key)) == nil, id+".set-ok")
 		return "set"
 	case 1:
 		nd.Assert(w.doDelete(o.t, o.key) == nil, id+".delete-ok")
@@ -116,6 +116,7 @@ func VerifH02c() {
 	k := histSteps(4, 4) // thorough: same length, two keys
 	nd.Bound("H02c.steps", k)
 	w := newWorld(stdConfig(), []string{"a", "b"})
+	w.mixAPIs = true
 	a := alpha{tx: true, gc: true, drain: true, maxTx: 2, levels: allLevels}
 	if nd.Tier() == 0 {
 		w.keys = []string{"a"} // quick: one key; all four levels (each has its own dispatch arm in Get, GetKeys and Commit)
@@ -138,6 +139,7 @@ func VerifH03c() {
 	k := histSteps(3, 4)
 	nd.Bound("H03c.steps", k)
 	w := newWorld(stdConfig(), []string{"a", "b"})
+	w.mixAPIs = true
 	a := alpha{tx: true, maxTx: 2, levels: allLevels}
 	// a transaction is open from the start (saves one step of every history)
 	w.begin(a.levels[nd.Choice("level0", 4)])
@@ -153,6 +155,7 @@ func VerifH05b() {
 	k := histSteps(3, 4)
 	nd.Bound("H05b.steps", k)
 	w := newWorld(stdConfig(), []string{"a"})
+	w.mixAPIs = true
 	a := alpha{tx: true, reopen: true, drain: true, otherDB: true, deleteEmptyKey: true, maxTx: 1, levels: []model.TxIsoLevel{fs_db.IsoLevelReadCommitted}}
 	// another database instance of the same process may have advanced the process counter
 	if nd.Choice("other-db-first", 2) == 1 {
